@@ -698,6 +698,8 @@ class Emitter:
                 return ("s", self.self_name)
             if n == "Option":
                 return ("o", self.conv_ty(ty[2][0]))
+            if n == "Vec" and len(ty) > 2 and ty[2]:
+                return ("l", self.conv_ty(ty[2][0]))
             if n in self.structs:
                 return ("s", n)
             return ("x", n)
@@ -720,6 +722,8 @@ class Emitter:
             return f"({t[1]} α)"
         if t[0] == "o":
             return f"(Option {self.lean_ty(t[1])})"
+        if t[0] == "l":
+            return f"(List {self.lean_ty(t[1])})"
         if t[0] == "t":
             if not t[1]:
                 return "Unit"
@@ -769,6 +773,11 @@ class Emitter:
                 return "none", ("o", None)
             raise Untranslatable(f"{self.fname}: unknown name {'::'.join(p)}")
         if k == "field":
+            if e[1][0] == "path" and len(e[1][1]) == 1 and isinstance(env.get(e[1][1][0]), tuple) and env[e[1][1][0]][0] == "ext":
+                ext = env[e[1][1][0]]
+                if e[2] in ext[1]:
+                    return f"{lname(e[1][1][0])}_{e[2]}", ext[1][e[2]]
+                raise Untranslatable(f"{self.fname}: field .{e[2]} on external object {e[1][1][0]}")
             s, t = self.expr(e[1], env)
             if t and t[0] == "s":
                 for (fn_, ft) in self.structs[t[1]]:
@@ -942,6 +951,11 @@ class Emitter:
                 op, lhs, rhs, line = st[1], st[2], st[3], st[4]
                 if lhs[0] == "deref":
                     lhs = lhs[1]
+                if lhs[0] == "field" and lhs[1][0] == "path" and len(lhs[1][1]) == 1:
+                    bt = env.get(lhs[1][1][0])
+                    if bt and bt[0] == "s" and lhs[2] in getattr(self, "dropped", {}).get(bt[1], ()):
+                        lines.append(f"{pad}-- {lhs[1][1][0]}.{lhs[2]} {op} ..  [field not modelled]")
+                        continue
                 rs, rt = self.expr(rhs, env)
                 if op != "=":
                     cur, _ = self.expr(lhs, env)
@@ -1016,6 +1030,16 @@ class Emitter:
                 if e[0] == "mcall":
                     # &mut method call on a local/self struct:  x.m(args);
                     rs, rt = self.expr(e[1], env)
+                    if rt and rt[0] == "l" and e[2] == "push" and len(e[3]) == 1:
+                        a, _ = self.expr(e[3][0], env)
+                        if e[1][0] == "path":
+                            lines.append(f"{pad}{rs} := {rs} ++ [{a}]")
+                        elif e[1][0] == "field" and e[1][1][0] == "path":
+                            base, _ = self.expr(e[1][1], env)
+                            lines.append(f"{pad}{base} := {{ {base} with {lname(e[1][2])} := {rs} ++ [{a}] }}")
+                        else:
+                            self.bad(st[2], "receiver of push")
+                        continue
                     if rt and rt[0] == "s" and (rt[1], e[2]) in self.fnsigs:
                         ln, ret, sk = self.fnsigs[(rt[1], e[2])]
                         argss = [self.expr(a, env)[0] for a in e[3]]
@@ -1120,7 +1144,11 @@ def gen_module(repo, spec, out_path, header):
     em = Emitter(structs, fnsigs, "")
     for item in spec:
         if item[0] == "struct":
-            _, rel, name = item
+            rel, name = item[1], item[2]
+            drop = set((item[3] or {}).get("drop", [])) if len(item) > 3 else set()
+            if not hasattr(em, "dropped"):
+                em.dropped = {}
+            em.dropped[name] = drop
             f = rf(rel)
             attrs, body, line = f.struct_decl(name)
             em.fname = rel
@@ -1128,8 +1156,13 @@ def gen_module(repo, spec, out_path, header):
             fields = parse_struct_fields(body, rel, line)
             fl = []
             for (fn_, fty, fattrs) in fields:
+                if fn_ in drop:
+                    continue            # field not modelled (listed in the module spec)
                 t = em.conv_ty(fty)
                 fl.append((fn_, t))
+            missing = drop - {fn_ for (fn_, _, _) in fields}
+            if missing:
+                raise Untranslatable(f"{rel}:{line}: struct {name} has no field(s) {sorted(missing)} that the spec drops")
             structs[name] = fl
             out.append(f"/-- `{rel}:{line}` struct {name} -/")
             out.append(f"structure {name} (α : Type) where")
@@ -1195,6 +1228,14 @@ MODULES = {
          {"_math": None, "state": ("ext", {"energy": "f"}), "_options": None}),
     ],
 }
+
+
+MODULES["Progress"] = [
+    # C11: the per-chain progress counters (`runtime: Duration` is not modelled)
+    ("struct", "src/sampler.rs", "ChainProgress", {"drop": ["runtime"]}),
+    ("fn", "src/sampler.rs", "ChainProgress", "update", "ChainProgress.update", None,
+     {"stats": ("ext", {"diverging": "b", "tuning": "b", "num_steps": "n", "step_size": "f"}), "draw_duration": None}),
+]
 
 
 # ------------------------------------------------------------------ Storable schemas (C16)
